@@ -170,9 +170,10 @@ func mapOrderPhase(r *ev.Run, variants []chain.GenesisOptions) {
 				r.Cap("deadline")
 				return
 			}
-			h := []int{i / n, i % n}
+			// two letters, then two empty blocks (elections of later epochs see the effects)
+			h := []int{i / n, i % n, 0, 0}
 			_, what, pruned := c.runHistory(h, true)
-			r.Add("transitions", 2)
+			r.Add("transitions", 4)
 			r.Add("map_order_executions", 1)
 			if pruned || what == "" {
 				return
